@@ -464,6 +464,21 @@ package leveldb
 //@   at before call (*DB).writeJournal#1
 //@     assert [C04,C10:every-accepted-sync-request-reaches-the-journal] gWantSync ==> arg2
 
+// Replaying a journal record: the i-th record of the group is entered under the group's sequence number plus i (the
+// numbers the writer gave them), the group is not older than what was already replayed, and exactly as many records
+// are entered as the header announces.
+//@ func decodeBatchToMem$1
+//@   props C04
+//@   safety off
+//@   at before call makeInternalKey#1
+//@     assert [C04:replayed-record-i-gets-the-group-sequence-plus-i] arg2 == seq + i && arg3 == index.keyType
+//@   ensures [C04:no-more-records-than-the-header-announces] result == nil ==> i < batchLen
+//@ func decodeBatchToMem
+//@   props C04
+//@   safety off
+//@   ensures [C04:replayed-group-is-not-older-than-expected] err == nil ==> seq >= expectSeq
+//@   guarantees [C04:replayed-count-is-the-header-count] err == nil ==> decodedLen == batchLen
+
 // O8: a transaction may record its sequence number in the manifest only when no frozen memdb is waiting to be
 // flushed (its journal records would be older than the recorded number and recovery would drop them).
 // The acknowledgement of a memdb-compaction command comes from another goroutine (mCompaction acknowledges
@@ -865,6 +880,24 @@ package leveldb
 //@   props C07
 //@   safety off
 //@   ensures [C07:version-reference-given-back] calls("(*version).release") - old(calls("(*version).release")) == calls("(*session).version") - old(calls("(*session).version"))
+
+// C01 / C03: a compaction reads ALL of its inputs: every table of a level-0 input and the whole list of a deeper
+// input are put behind an iterator, over the full key range, and all of them are merged.
+//@ spec func itsFor(c ref, j int) int = len(c.levels[j]) == 0 ? 0 : (c.sourceLevel + j == 0 ? len(c.levels[j]) : 1)
+//@ func (*compaction).newIterator
+//@   props C01 C03
+//@   safety off
+//@   requires c.sourceLevel >= 0
+//@   loop 1
+//@     invariant [C01,C03:one-iterator-per-input-so-far] len(its) == (rangeidx1 >= 1 ? itsFor(c, 0) : 0) + (rangeidx1 >= 2 ? itsFor(c, 1) : 0)
+//@   loop 2
+//@     invariant [C01,C03:one-iterator-per-level-0-table-so-far] i == 0 && len(its) == rangeidx2
+//@   at before call (*tOps).newIterator#1
+//@     assert [C01,C03:input-tables-are-read-over-the-full-range] arg1 == nil && arg0 == t
+//@   at before call (tFiles).newIndexIterator#1
+//@     assert [C01,C03:input-tables-are-read-over-the-full-range] arg2 == nil && sameslice(recv, c.levels[i])
+//@   at before call NewMergedIterator#1
+//@     assert [C01,C03:every-input-is-merged] len(arg0) == itsFor(c, 0) + itsFor(c, 1)
 
 // C01 / C03 / C06: a deletion marker may be dropped only when no deeper level can still hold an older entry for its
 // user key. "Base level" must therefore mean: no table of any level below the compaction's output level has the
@@ -1420,10 +1453,10 @@ package leveldb
 //@     assert [C02,C11:every-table-iterator-is-restricted-to-the-range] arg2 == slice
 // (what the source iterators do with the range is C13 / C14 material: left abstract here)
 //@ func (*tOps).newIterator
-//@   props C02 C11
+//@   props C02 C11 C01 C03
 //@   trusted
 //@ func (tFiles).newIndexIterator
-//@   props C02 C11
+//@   props C02 C11 C01 C03
 //@   trusted
 
 // C01 / C11: the first buffer that knows the key (a value, a deletion marker, or an error) decides the lookup:
